@@ -18,8 +18,21 @@
    the reals in one statement), C17_mv_draw_absent_no_factor, C17_mv_draw_absent_not_posdef,
    C17_mv_draw_present_iff_posdef (absent for a non-positive-definite covariance, stated for the
    draw itself).
+   Wave 3: FLOAT TIER of the correspondence (ops 6 - 8, f64 and f32): IEEE arithmetic is still not
+   modelled; the harness compares every density / sample / multivariate row with a real-number
+   closed form evaluated in f64 inside a stated rounding budget.  Those closed forms are exactly
+   the right-hand sides proved of the model over Coq's R: the density reference is
+   C17_float_oracle_pdf_reference (= C17_pdf_real, hypothesis 0 < var only; symmetry and the maximum
+   at the mean: C17_pdf_real_shape), a sample is C17_draw_values_real (which source pair, cos for
+   even and sin for odd positions, radicand >= 0 for u in (0,1]), a multivariate row is
+   C17_mv_draw_real (mean_i + sum_j L_ij z_j with L the Cholesky routine's own factor — the harness
+   takes L from the crate's routine, C08 says what L is).  Beyond these the oracle trusts: std's
+   f64 sqrt / exp / ln / cos / sin / PI as the real functions to a few units in the last place,
+   and — for the predicted PRESENCE of a multivariate draw — that a symmetric matrix is positive
+   definite (C17_mv_draw_present_iff_posdef) iff every pivot of its exact LDL^T decomposition is
+   positive (textbook; from C08_ldlt_sound's A = L D L^T, not restated here).
    Limits: K1 (0 samples: the library panics, the model returns None); the rcf theorems have no
-   constructed instance (none installed, as in C08); floats are not modelled. *)
+   constructed instance (none installed, as in C08); floats are not modelled (oracle tier only). *)
 From Coq Require Import List Arith NArith ZArith Reals.
 From EasyML Require Import Base.Sx Model.Num Model.Stats Model.Gaussian Proofs.C14P Proofs.RealOps Proofs.C17P Proofs.C17R Proofs.C17Chol.
 From EasyML Require Model.Decomp Model.LinAlg Proofs.C08P2 Proofs.C08P5 Proofs.C17PD.
@@ -279,6 +292,19 @@ Theorem C17_mv_draw_present_iff_posdef : forall (F : C17PD.real_closed_field)
    <-> C17PD.cov_posdef cov).
 Proof. exact C17PD.mv_draw_present_iff_posdef. Qed.
 
+(* ---- wave 3: what the float tier's density reference is ---- *)
+(* the value the harness evaluates in f64 — d = x - mean, y = -(d d)/(2 var), norm = 1/sqrt(2 pi var),
+   reference = norm * exp y — IS the transcribed `probability` over the reals, for every mean, every
+   variance > 0 and every point; y <= 0 and exp y <= 1 (nothing exceeds the density at the mean),
+   norm > 0.  No hypothesis beyond 0 < var: the oracle relies on no other real-number fact *)
+Theorem C17_float_oracle_pdf_reference : forall mean var x : R, (0 < var)%R ->
+  let d := (x - mean)%R in
+  let y := (- (d * d) / (2 * var))%R in
+  let norm := (1 / sqrt (2 * PI * var))%R in
+  probability Rops (mkGaussian mean var) x = (norm * exp y)%R /\
+  (y <= 0)%R /\ (exp y <= 1)%R /\ (0 < norm)%R.
+Proof. exact float_oracle_pdf_reference. Qed.
+
 (* non-vacuity: the reals satisfy the density hypotheses (that is C17_pdf_real); on the executable
    prime-field dictionary a draw of 3 samples takes 4 of 5 numbers, runs dry on 3, and a
    2-dimensional multivariate draw of 2 samples yields a 2 x 2 result using 4 numbers *)
@@ -332,3 +358,4 @@ Print Assumptions C17_mv_draw_real.
 Print Assumptions C17_mv_draw_absent_no_factor.
 Print Assumptions C17_mv_draw_absent_not_posdef.
 Print Assumptions C17_mv_draw_present_iff_posdef.
+Print Assumptions C17_float_oracle_pdf_reference.
